@@ -55,6 +55,9 @@ func RunPlan(args []string, opts GlobalOptions) error {
 		for id, task := range graph.Tasks {
 			workingIDs[id] = task
 		}
+		for id := range graph.Tombstones {
+			workingIDs[id] = nil // pruned ids must not be issued again
+		}
 
 		epicTitle := *input.Title
 		epicBody := ""
